@@ -408,6 +408,22 @@ fn c11_grid(_tier: Tier) -> Vec<Program> {
             }
         }
     }
+    // an index record of more than 2 MiB (raw metadata of 600 KB spelled as a JSON array)
+    for fl in [Fl::Sync, Fl::Async] {
+        for (i, entry_is_index) in [false, true].into_iter().enumerate() {
+            let raw = crate::gen::huge_raw_meta(610_000 + i * 1000, 7);
+            let step = if entry_is_index {
+                Step { op: Op::IdxInsert { key: 0, fields: IdxFields { integrity: Some(AddrRef { algo: Algo::Sha256, blob: 0 }), size: Some(3), time: Some("77".into()), metadata: None, raw_metadata: Some(raw) } }, fl }
+            } else {
+                let mut s = WriteSpec::simple(Some(0), 0);
+                s.entry = WEntry::Opts;
+                s.raw_metadata = Some(raw);
+                s.time = Some("78".into());
+                Step { op: Op::Write(s), fl }
+            };
+            out.push(Program { keys: vec!["huge-record".into(), "z".into()], blobs: vec![Blob::new(3, 1)], steps: vec![step, Step { op: Op::Write(WriteSpec::simple(Some(1), 0)), fl }] });
+        }
+    }
     // declared integrities with several hashes are metadata too: returned as supplied
     for fl in [Fl::Sync, Fl::Async] {
         for integ in [IntegDecl::Correct, IntegDecl::MultiWithCorrect, IntegDecl::MultiTwoAlgos] {
@@ -502,7 +518,7 @@ pub fn c11() -> ProgEngine {
 fn c16_cfg(tier: Tier) -> ProgCfg {
     ProgCfg {
         mix: OpMix { write: 16, read: 2, read_hash: 2, damage_content: 2, remove: 1, ..OpMix::NONE },
-        wmix: WriteMix { bad_decls: false, meta: false, by_hash: true, rich_matching: false, interfere: false },
+        wmix: WriteMix { bad_decls: true, meta: false, by_hash: true, rich_matching: false, interfere: false },
         sizes: SizeMix::Small,
         keys: (2, 5),
         blobs: (1, 3),
@@ -595,10 +611,12 @@ fn c16_after(ctx: &Ctx, prog: &Program, i: usize, r: &StepResult, _model: &Model
         let algo = if matches!(w.entry, WEntry::OneShot | WEntry::Create) { Algo::Sha256 } else { w.algo };
         st.eval(1);
         let want = blob::sri(algo, &ctx.blob(w.blob));
-        if *s != want {
+        // a keyed commit with a declared (possibly multi-hash) integrity returns the declaration
+        let declared_multi = w.entry == WEntry::Opts && w.key.is_some() && !matches!(w.integ, IntegDecl::None | IntegDecl::Correct);
+        if *s != want && !declared_multi {
             return Err(format!("address {s} != {want}"));
         }
-        if algo == Algo::Xxh3 {
+        if algo == Algo::Xxh3 && !declared_multi {
             // 128-bit big-endian convention
             let raw = xxhash_rust::xxh3::xxh3_128(&ctx.blob(w.blob)).to_be_bytes();
             if *s != format!("xxh3-{}", blob::b64(&raw)) {
